@@ -334,4 +334,156 @@ Section TP.
     - exists t. split; [reflexivity|]. split; [|split; [tauto|reflexivity]].
       split; [exact Hp|]. left. lia.
   Qed.
+
+  (* ---------------------------------------------------------------- Table_Assign / copy *)
+  Lemma set_all_spec : forall (kvs : list entry) t, pre_inv t -> nitems t + length kvs < nslots t ->
+    NoDup (map fst kvs) -> (forall e e', In e kvs -> In e' (t_iter t) -> fst e' <> fst e) ->
+    exists t', set_all t kvs = Some t' /\ pre_inv t' /\ nslots t' = nslots t /\
+      (forall e, In e (t_iter t') <-> In e kvs \/ In e (t_iter t)) /\
+      nitems t' <= nitems t + length kvs.
+  Proof.
+    induction kvs as [|[k v] r IH]; intros t Hp Hload Hnd Habs.
+    - exists t. split; [reflexivity|]. split; [assumption|]. split; [reflexivity|]. split; [simpl; tauto|lia].
+    - simpl in Hload, Hnd. inversion Hnd as [|? ? Hnin Hnd']; subst.
+      destruct (set_move_spec t k v Hp ltac:(lia)) as [t1 [Hsm [Hp1 [Hns1 [Hit1 Hni1]]]]].
+      destruct (IH t1 Hp1) as [t' [Hsa [Hp' [Hns' [Hit' Hni']]]]]; auto.
+      + lia.
+      + intros e e' He He'. apply Hit1 in He'. destruct He' as [->|[He' _]].
+        * simpl. intros Heq. apply Hnin. rewrite Heq. apply in_map. assumption.
+        * apply Habs; [right; assumption|assumption].
+      + exists t'. split.
+        { simpl. rewrite Hsm. exact Hsa. }
+        split; [exact Hp'|]. split; [lia|]. split; [|simpl; lia].
+        intros e. rewrite Hit', Hit1. simpl. split.
+        * intros [H|[H|[H _]]]; auto.
+        * intros [[H|H]|H]; auto. right. right. split; [assumption|].
+          apply (Habs (k, v) e); [left; reflexivity|assumption].
+  Qed.
+
+  Lemma assign_from_spec t : t_inv t ->
+    exists t', t_assign_from t = Some t' /\ t_inv t' /\ (forall e, In e (t_iter t') <-> In e (t_iter t)).
+  Proof.
+    intros [Hp Hload]. pose proof Hp as [Hc Hn]. unfold TableModel.t_assign_from.
+    pose proof (ideal_gt (nitems t)) as Hid. fold ideal in Hid.
+    set (t0 := mkT (repeat None (ideal (nitems t))) 0).
+    assert (Hns0 : nslots t0 = ideal (nitems t)) by apply repeat_length.
+    assert (Hlen : length (t_iter t) = nitems t) by (rewrite Hn; reflexivity).
+    destruct (set_all_spec (t_iter t) t0 (pre_inv_fresh _)) as [t' [Hsa [Hp' [Hns' [Hit' Hni']]]]].
+    - rewrite Hns0, Hlen. simpl. lia.
+    - apply iter_nodup. assumption.
+    - intros e e' _ He'. unfold t0, TableModel.t_iter in He'. simpl in He'. rewrite entries_repeat in He'. destruct He'.
+    - exists t'. split; [exact Hsa|]. split.
+      + split; [exact Hp'|]. left. rewrite Hns', Hns0. simpl in Hni'. lia.
+      + intros e. rewrite Hit'. unfold t0 at 1, TableModel.t_iter at 2. simpl. rewrite entries_repeat. simpl. tauto.
+  Qed.
+
+  (* ---------------------------------------------------------------- one operation *)
+  Definition step_ok (t : table) (m : amap K V) (o : op K V) : Prop :=
+    t_inv (fst (t_step t o)) /\ R (fst (t_step t o)) (fst (spec_step m o)) /\
+    snd (t_step t o) = snd (spec_step m o).
+
+  Lemma t_inv_nil : t_inv (mkT [] 0).
+  Proof. split; [apply (pre_inv_fresh 0)|right; reflexivity]. Qed.
+
+  Lemma step_set t m k v : t_inv t -> R t m -> step_ok t m (TSet K V k v).
+  Proof.
+    intros [Hp Hload] [Hnd Hin]. unfold step_ok, TableModel.t_step.
+    set (t0 := if nslots t =? 0 then mkT (repeat None (ideal 0)) 0 else t).
+    assert (H0 : pre_inv t0 /\ nitems t0 < nslots t0 /\ forall e, In e (t_iter t0) <-> In e (t_iter t)).
+    { unfold t0. destruct (Nat.eqb_spec (nslots t) 0) as [Hz|Hz].
+      - split; [apply pre_inv_fresh|]. split.
+        + unfold TableModel.nslots. simpl. rewrite repeat_length. apply (ideal_gt 0).
+        + intros e. rewrite (nslots0_iter t Hz). unfold TableModel.t_iter. simpl. rewrite entries_repeat. tauto.
+      - split; [assumption|]. split; [lia|tauto]. }
+    destruct H0 as [Hp0 [Hl0 Hit0]].
+    destruct (set_move_spec t0 k v Hp0 Hl0) as [t1 [Hsm [Hp1 [Hns1 [Hit1 Hni1]]]]].
+    destruct (resize_more_spec t1 Hp1) as [t2 [Hrm [Hi2 [Hit2 Hni2]]]].
+    rewrite Hsm, Hrm. simpl. split; [exact Hi2|]. split; [|reflexivity].
+    split; [apply nodup_a_set; assumption|].
+    intros e. rewrite Hit2, Hit1, Hit0, Hin. symmetry. apply in_a_set. assumption.
+  Qed.
+
+  Lemma step_get t m k : t_inv t -> R t m -> step_ok t m (TGet K V k).
+  Proof.
+    intros Hi Hr. unfold step_ok, TableModel.t_step, TableModel.spec_step.
+    rewrite (lookup_refines t m k Hi Hr). destruct (a_get m k); simpl; auto.
+  Qed.
+
+  Lemma step_mem t m k : t_inv t -> R t m -> step_ok t m (TMem K V k).
+  Proof.
+    intros Hi Hr. unfold step_ok, TableModel.t_step, TableModel.spec_step.
+    rewrite (lookup_refines t m k Hi Hr). destruct (a_get m k); simpl; auto.
+  Qed.
+
+  Lemma step_rem t m k : t_inv t -> R t m -> step_ok t m (TRem K V k).
+  Proof.
+    intros Hi Hr. pose proof Hi as [Hp Hload]. pose proof Hp as [Hc Hn]. pose proof Hr as [Hnd Hin].
+    unfold step_ok, TableModel.t_step, TableModel.spec_step.
+    destruct (Nat.eqb_spec (nslots t) 0) as [Hz|Hz].
+    - rewrite (R_nil t m (nslots0_iter t Hz) Hr). simpl. split; [assumption|]. split; [|reflexivity].
+      rewrite <- (R_nil t m (nslots0_iter t Hz) Hr). assumption.
+    - assert (Hpos : 0 < nslots t) by lia.
+      destruct (find_spec K entry keq fst keq_spec (hmn (nslots t)) (slots t) k Hc
+                  (home_lt k (nslots t) Hpos)) as [r [Hf Hfr]].
+      unfold rh_find. unfold hmn in Hf at 1. rewrite Hf.
+      destruct r as [i|].
+      + destruct Hfr as [[k' v'] [Hat Hk]]. simpl in Hk. subst k'.
+        assert (Hocc : occupied (slots t) < length (slots t)) by (unfold TableModel.nslots in *; lia).
+        destruct (delete_at_spec K entry fst swap swap_le (hmn (nslots t)) (slots t) i _ _ Hc Hat Hocc)
+          as [l' [Hd [Hc' [Hlen [Hh Ho]]]]].
+        unfold rh_delete. rewrite Hd.
+        set (t1 := mkT l' (pred (nitems t))).
+        assert (Hp1 : pre_inv t1).
+        { split; simpl; [|lia]. apply (core_n (nslots t)); [symmetry; exact Hlen|exact Hc']. }
+        assert (Hl1 : nitems t1 < nslots t1).
+        { assert (Hlen2 : length l' = nslots t) by exact Hlen.
+          change (pred (nitems t) < length l'). lia. }
+        destruct (resize_less_spec t1 Hp1 Hl1) as [t2 [Hrl [Hi2 [Hit2 Hni2]]]].
+        rewrite Hrl.
+        assert (Hg : a_get m k = Some v').
+        { apply (a_get_some K V keq keq_spec m k v' Hnd). apply Hin. apply iter_holds. exists i, (hmn (nslots t) k). exact Hat. }
+        rewrite Hg. simpl. split; [exact Hi2|]. split; [|reflexivity].
+        split; [apply nodup_a_rem; assumption|].
+        intros e. rewrite Hit2. rewrite (in_a_rem K V keq keq_spec), <- Hin, !iter_holds. apply Hh.
+      + assert (Hg : a_get m k = None).
+        { apply a_get_none; [assumption|]. intros Hk. apply in_map_iff in Hk. destruct Hk as [e [Hk He]].
+          apply Hin in He. apply iter_holds in He. destruct He as [a [g Ha]]. eapply Hfr; eauto. }
+        rewrite Hg. simpl. auto.
+  Qed.
+
+  Lemma step_resize t m n : t_inv t -> R t m -> step_ok t m (TResize K V n).
+  Proof.
+    intros Hi Hr. pose proof Hi as [Hp Hload]. pose proof Hp as [Hc Hn]. pose proof Hr as [Hnd Hin].
+    unfold step_ok, TableModel.t_step, TableModel.spec_step.
+    destruct (Nat.eqb_spec n 0) as [Hz|Hz].
+    - simpl. split; [apply t_inv_nil|]. split; [|reflexivity]. split; [constructor|]. intros e. simpl. tauto.
+    - rewrite <- (R_len t m Hp Hr).
+      destruct (Nat.ltb_spec n (nitems t)) as [Hlt|Hge].
+      + simpl. auto.
+      + pose proof (ideal_gt n) as Hid. fold ideal in Hid.
+        destruct (t_rehash_spec t (ideal n) (inv_uq t Hp) ltac:(lia)) as [t2 [Hrh [Hi2 [_ [Hit2 _]]]]].
+        rewrite Hrh. simpl. split; [exact Hi2|]. split; [|reflexivity].
+        split; [assumption|]. intros e. rewrite Hit2. apply Hin.
+  Qed.
+
+  Lemma step_copy t m : t_inv t -> R t m -> step_ok t m (TSelfCopy K V).
+  Proof.
+    intros Hi [Hnd Hin]. unfold step_ok, TableModel.t_step, TableModel.spec_step.
+    destruct (assign_from_spec t Hi) as [t' [Ha [Hi' Hit']]]. rewrite Ha. simpl.
+    split; [exact Hi'|]. split; [|reflexivity]. split; [assumption|].
+    intros e. rewrite Hit'. apply Hin.
+  Qed.
+
+  (* every operation keeps the invariant, keeps the abstraction relation with the finite map
+     and returns what the finite map returns — in particular never OFuel / OCrash *)
+  Theorem step_refines t m o : t_inv t -> R t m -> step_ok t m o.
+  Proof.
+    intros Hi Hr. destruct o.
+    - apply step_set; assumption.
+    - apply step_rem; assumption.
+    - apply step_get; assumption.
+    - apply step_mem; assumption.
+    - apply step_resize; assumption.
+    - apply step_copy; assumption.
+  Qed.
 End TP.
